@@ -44,12 +44,17 @@ ASSUMPTIONS = [
     "(no Pow, no array value), C05_subst_typed_arr_partial / _mss_arr_partial (array values too, when no key is an index constant)",
     "compound keys: C05_subst_congruence_partial - replacing sub-terms by terms of equal value under I preserves the value, "
     "quantifiers included (keys surviving the binder), every operator except Pow",
-    "interp_lemma is PROVED (C05_interp_lemma_partial) for interpretations as FunctionInterpretation documents them (formals of the "
-    "parameter sorts, body of the result sort closed except for the formals) with the side condition that bodies are quantifier-free "
-    "(an actual parameter can be captured by a binder of the body otherwise) and okt / Pow-free",
+    "interp_lemma is PROVED for interpretations as FunctionInterpretation documents them (formals of the parameter sorts, body of "
+    "the result sort closed except for the formals), okt / Pow-free: C05_interp_lemma_partial (quantifier-free bodies) and "
+    "C05_interp_lemma_capture_free_partial (arbitrary bodies under the proviso icap: at every call site no bound variable of the body "
+    "captures a free symbol of an actual parameter)",
+    "okt (the well-formedness hypothesis) is closed under the modelled constructors: C05_ctor_okt / C05_quant_okt (payload conditions: "
+    "inhabited sorts, Fraction denominators > 0, positive BV widths, canonical array indexes; Pow excluded)",
     "the substitution lemma for MSSubstituter and the coincidence of MGS and MSS on symbol keys are REFUTED "
-    "(C05_subst_lemma_mss_refuted, C05_mgs_mss_sym_refuted); the witness is replayed on the implementation on every run; they hold "
-    "when no replacement term is a negation (C05_mgs_mss_sym_partial, C05_subst_lemma_mss_partial)",
+    "(C05_subst_lemma_mss_refuted, C05_mgs_mss_sym_refuted); the witness is replayed on the implementation on every run; EXACT "
+    "characterisation: mss_ok s t (no node rebuilt from the substituted children collapses onto a key mapped elsewhere) is sufficient "
+    "for MSS = MGS and for the lemma (C05_mss_ok_coincide, C05_subst_lemma_mss_ok_partial), tight (C05_mss_ok_tight) and needed "
+    "(C05_mss_ok_needed); the earlier condition 'no replacement is a negation' implies it (C05_mss_ok_of_no_neg)",
     "array values are compared with their assignments in a canonical order (the code orders them by id(), i.e. memory addresses)",
     "substitution maps whose constant keys make two indexes of one array value collide are not generated (the surviving value depends on id() order)",
     "substitution maps that replace the constant exponent of a Pow by another constant are not generated (mgr.Pow then folds through "
@@ -917,6 +922,8 @@ def run(tier):
     chk = lib.Check("C05", tier)
     rnd = random.Random(chk.seed)
     lib.clean_cases(chk.dir)
+    from . import gen_all
+    gen_all.regen_all()      # coq/gen (operator table, dispatch tables) is rebuilt from the repository under test
     ok = chk.prove()
     chk.note("proof closure: %s" % ("ok" if ok else "FAILED " + lib.proof_failure_summary(chk)))
     directed_witness(chk)
